@@ -1,5 +1,7 @@
 #!/bin/bash
 # usage: run_zmir.sh <out-dir> <cargo check args...>   (cwd = repo root to analyse, default /repo)
+# With ZMIR_FIXTURE=<dir under /verif/fixtures> the crate analysed is a copy of that fixture whose
+# path dependencies point at the repo; only the crates in $ZMIR_ONLY are dumped.
 set -u
 OUT="$1"; shift
 REPO="${ZMIR_REPO:-/repo}"
@@ -7,12 +9,23 @@ DRV=/verif/engine/zmir/target/release/zmir
 [ -x "$DRV" ] || { echo "zmir driver missing: run /verif/setup.sh" >&2; exit 2; }
 TGT=$(mktemp -d /tmp/zmir-target.XXXXXX)
 mkdir -p "$OUT"
-cd "$REPO" || exit 2
-LD_LIBRARY_PATH=$(rustc +nightly --print sysroot)/lib \
-ZMIR_OUT="$OUT" CARGO_NET_OFFLINE=true \
-RUSTFLAGS="-Zmir-opt-level=0 -Awarnings" \
-RUSTC_WORKSPACE_WRAPPER="$DRV" CARGO_TARGET_DIR="$TGT" \
-cargo +nightly check --offline "$@" > "$OUT/cargo.log" 2>&1
-rc=$?
+export LD_LIBRARY_PATH=$(rustc +nightly --print sysroot)/lib
+export ZMIR_OUT="$OUT" CARGO_NET_OFFLINE=true RUSTFLAGS="-Zmir-opt-level=0 -Awarnings" CARGO_TARGET_DIR="$TGT"
+if [ -n "${ZMIR_FIXTURE:-}" ]; then
+  SRC="$TGT/fixture-src"
+  mkdir -p "$SRC"
+  cp -r "/verif/fixtures/$ZMIR_FIXTURE/." "$SRC/" || exit 2
+  sed -i "s#@REPO@#$REPO#g" "$SRC/Cargo.toml"
+  cp "$REPO/Cargo.lock" "$SRC/Cargo.lock"
+  cd "$SRC" || exit 2
+  ZMIR_DRV="$DRV" RUSTC_WRAPPER=/verif/engine/crate_filter.sh \
+  cargo +nightly check --offline "$@" > "$OUT/cargo.log" 2>&1
+  rc=$?
+else
+  cd "$REPO" || exit 2
+  RUSTC_WORKSPACE_WRAPPER="$DRV" \
+  cargo +nightly check --offline "$@" > "$OUT/cargo.log" 2>&1
+  rc=$?
+fi
 rm -rf "$TGT"
 exit $rc
